@@ -831,7 +831,10 @@ fn run_child(prop: &Property, opts: &Opts, root: &Path) -> i32 {
                                 break;
                             }
                             if let Some(b) = budget {
-                                if start.elapsed() > b {
+                                // the wall budget is shared out over the targets in order, so that a
+                                // slow first target cannot starve the later ones
+                                let share = b.mul_f64((ti + 1) as f64 / prop.targets.len() as f64);
+                                if start.elapsed() > share {
                                     budget_hit.store(true, Ordering::Relaxed);
                                     break;
                                 }
